@@ -9,6 +9,7 @@ import (
 	"math/rand/v2"
 	"strings"
 	"sync"
+	"sync/atomic"
 	"testing"
 
 	"github.com/ava-labs/avalanchego/database"
@@ -46,6 +47,10 @@ type c9Blk struct {
 	cs     []c9Item
 	has    map[ids.ID]struct{}
 	learnt string // how the current window learnt the block: "", accept, populate, historical
+	// onGet (concurrent part, c09conc_test.go): observer run when the window reads the block's
+	// containers, i.e. from inside window.Accept. Set before the goroutines of a concurrent
+	// case are started and cleared after they were joined.
+	onGet func()
 }
 
 func (b *c9Blk) GetID() ids.ID { return b.id }
@@ -55,20 +60,25 @@ func (b *c9Blk) GetParent() ids.ID {
 	}
 	return b.par.id
 }
-func (b *c9Blk) GetTimestamp() int64     { return b.ts }
-func (b *c9Blk) GetHeight() uint64       { return b.h }
-func (b *c9Blk) GetBytes() []byte        { return b.id[:] }
-func (b *c9Blk) GetContainers() []c9Item { return b.cs }
+func (b *c9Blk) GetTimestamp() int64 { return b.ts }
+func (b *c9Blk) GetHeight() uint64   { return b.h }
+func (b *c9Blk) GetBytes() []byte    { return b.id[:] }
+func (b *c9Blk) GetContainers() []c9Item {
+	if f := b.onGet; f != nil {
+		f()
+	}
+	return b.cs
+}
 func (b *c9Blk) Contains(id ids.ID) bool { _, ok := b.has[id]; return ok }
 func (b *c9Blk) String() string          { return fmt.Sprintf("blk#%d(h=%d,ts=%d)", b.n, b.h, b.ts) }
 
 type c9Index struct {
-	m    map[ids.ID]*c9Blk
-	gets int
+	m    map[ids.ID]*c9Blk // only read while a concurrent case runs
+	gets atomic.Int64
 }
 
 func (i *c9Index) GetExecutionBlock(_ context.Context, id ids.ID) (vw.ExecutionBlock[c9Item], error) {
-	i.gets++
+	i.gets.Add(1)
 	b, ok := i.m[id]
 	if !ok {
 		return nil, database.ErrNotFound
@@ -88,6 +98,14 @@ type c9Op struct {
 	P     int    `json:"p,omitempty"`
 	TS    int64  `json:"ts,omitempty"`
 	Items []c9It `json:"items,omitempty"`
+	// catchup only: perform window.Accept concurrently with verification of a child (c09conc_test.go)
+	Conc   string `json:"conc,omitempty"`   // "" | hook | stress
+	CP     int    `json:"cp,omitempty"`     // parent of the probing child: the accepted tip or a processing block
+	CTS    int64  `json:"cts,omitempty"`    // timestamp of the probing child
+	CIt    int    `json:"cit,omitempty"`    // which container of the block being accepted the child repeats
+	CPos   int    `json:"cpos,omitempty"`   // position of the repeated container in the child
+	CFresh int    `json:"cfresh,omitempty"` // number of fresh containers around it
+	Yields int    `json:"yields,omitempty"` // hook: scheduler yields GetContainers lingers inside Accept; stress: Accept starts after this many probes
 }
 
 type c9Case struct {
@@ -102,6 +120,7 @@ type c9Stats struct {
 	crossBranchAccepted, isRepeatProbes, isRepeatFlags                                int
 	accepts, catchups, restarts, syncs, backfills, prunes, fwds, rejectedByConsensus  int
 	indexGets, maxLag                                                                 int
+	conc                                                                              c9ConcStats
 }
 
 func (s *c9Stats) add(o *c9Stats) {
@@ -131,6 +150,7 @@ func (s *c9Stats) add(o *c9Stats) {
 	s.rejectedByConsensus += o.rejectedByConsensus
 	s.indexGets += o.indexGets
 	s.maxLag = max(s.maxLag, o.maxLag)
+	s.conc.add(&o.conc)
 }
 
 // c9Hist = the model (explicit block tree, accepted prefix, what the index
@@ -151,6 +171,9 @@ type c9Hist struct {
 	shape      strings.Builder
 	st         *c9Stats
 	trueRepeat bool
+	childN     int // probing children / fresh containers made by concurrent cases
+	freshN     int
+	inconc     string // set when a concurrent case could not be joined (watchdog): history abandoned
 }
 
 func newC9Hist(c *c9Case, st *c9Stats) (*c9Hist, error) {
@@ -370,7 +393,13 @@ func (h *c9Hist) apply(op c9Op) (string, string) {
 		}
 		h.winAcc++
 		b := h.acc[h.winAcc]
-		h.win.Accept(b)
+		if par := h.concParent(op, b); par != nil {
+			if k, d := h.acceptConcurrently(op, b, par); d != "" || h.inconc != "" {
+				return k, d
+			}
+		} else {
+			h.win.Accept(b)
+		}
 		b.learnt = "accept"
 		st.catchups++
 		h.shape.WriteString("C;")
@@ -649,11 +678,12 @@ var c9Windows = []int64{1000, 5000, 60000}
 
 func TestC09(t *testing.T) {
 	r := kit.Start(t, "C09", "exploration")
-	r.Rule("history = PRNG op script over an explicit block tree driven against the real TimeValidityWindow (+EMap): propose+verify a block on the accepted tip or any processing block (forks, preference flips) with fresh containers, containers re-included from in-window ancestors, containers known from other branches, in-block duplicates (expiry always a whole second in [block ts, block ts+window] as C10 requires); consensus accepts a child of the last accepted block and rejects the other branches; window.Accept lags behind (0..6 blocks); the chain index is pruned as deep as the window assumption allows; restart at any retained accepted height (NewTimeValidityWindow over the surviving index); state sync onto an accepted block followed by AcceptHistorical backfill interleaved with forward accepts. Windows {1 s, 5 s, 60 s}; timestamp steps 0, 1 ms .. 2 windows, blocks placed exactly one window after an ancestor. Oracle walks ancestors in the model: a block with an in-block duplicate or a container of an ancestor with ts >= block ts - window must be rejected by VerifyExpiryReplayProtection and every such container must be flagged by IsRepeat. Non-trivial = the history contains at least one block repeating an in-window ancestor's container; distinct = distinct op-script shape (op kinds, parent depth, container count, lag, repeat class).")
+	r.Rule("history = PRNG op script over an explicit block tree driven against the real TimeValidityWindow (+EMap): propose+verify a block on the accepted tip or any processing block (forks, preference flips) with fresh containers, containers re-included from in-window ancestors, containers known from other branches, in-block duplicates (expiry always a whole second in [block ts, block ts+window] as C10 requires); consensus accepts a child of the last accepted block and rejects the other branches; window.Accept lags behind (0..6 blocks); the chain index is pruned as deep as the window assumption allows; restart at any retained accepted height (NewTimeValidityWindow over the surviving index); state sync onto an accepted block followed by AcceptHistorical backfill interleaved with forward accepts. Windows {1 s, 5 s, 60 s}; timestamp steps 0, 1 ms .. 2 windows, blocks placed exactly one window after an ancestor. Oracle walks ancestors in the model: a block with an in-block duplicate or a container of an ancestor with ts >= block ts - window must be rejected by VerifyExpiryReplayProtection and every such container must be flagged by IsRepeat. Concurrent part (40% of the histories): window.Accept(B) of a block with containers runs on its own goroutine while a child of the accepted tip or of a processing block (all descend from B; B within the child's window, expiry valid for the child, the repeated container at any position among 0..3 fresh ones) is verified on another: 'hook' = B.GetContainers(), called from inside Accept, releases the verifier and lingers 1..1024 scheduler yields (never waits for it); 'stress' = 3 verifiers x 6..32 Verify+IsRepeat probes (each keeps going until it saw Accept return) while Accept starts after 0..9 probes. B is an ancestor at every instant, so every probe must be rejected and flagged whatever the interleaving; both goroutines joined with a deadlock witness. Non-trivial = the history contains at least one block repeating an in-window ancestor's container; distinct = distinct op-script shape (op kinds, parent depth, container count, lag, repeat class, concurrent-case parameters).")
 	r.Assume("only the stated direction (repeat => rejected/flagged) is asserted; spurious rejections are counted, not judged",
 		"the chain index holds every accepted block within one window of the restart head plus one older block (the assumption documented on TimeValidityWindow); verification is not judged while a state-sync backfill is incomplete",
 		"consensus only verifies children of the last accepted block or of processing blocks, timestamps never decrease along a chain, genesis carries no containers",
-		"generic emap.Item containers stand in for chain.Transaction (the window only uses GetID/GetExpiry)")
+		"generic emap.Item containers stand in for chain.Transaction (the window only uses GetID/GetExpiry)",
+		"concurrent part: one accepter goroutine (window.Accept is only called from the async accepter) against verifier/builder goroutines; interleavings are those the Go scheduler produces under the GetContainers linger / the stress start offset, not an enumeration")
 	r.Extra("windows_ms", c9Windows)
 
 	total := &c9Stats{}
@@ -665,7 +695,7 @@ func TestC09(t *testing.T) {
 			return "C09/restart-error", err.Error(), h, st
 		}
 		for _, op := range c.Ops {
-			if k, d := h.apply(op); d != "" {
+			if k, d := h.apply(op); d != "" || h.inconc != "" {
 				return k, d, h, st
 			}
 		}
@@ -676,9 +706,12 @@ func TestC09(t *testing.T) {
 		if err := json.Unmarshal(rf.Witness, &c); err == nil && len(c.Ops) > 0 {
 			r.Eval()
 			var k, d string
-			r.Guard("validitywindow", c, func() { k, d, _, _ = runScript(&c) })
+			var h *c9Hist
+			r.Guard("validitywindow", c, func() { k, d, h, _ = runScript(&c) })
 			if d != "" {
 				r.Violation(k, c, "%s", d)
+			} else if h != nil && h.inconc != "" {
+				r.Inconclusive("%s", h.inconc)
 			}
 			r.Finish(0)
 			return
@@ -709,6 +742,7 @@ func TestC09(t *testing.T) {
 				pRestart := []int{0, 3, 6}[rng.IntN(3)]
 				pPrune := []int{0, 2, 4}[rng.IntN(3)]
 				maxLag := []int{0, 1, 3, 6}[rng.IntN(4)]
+				concMode := []string{"", "", "", "", "", "", "hook", "hook", "hook", "stress"}[rng.IntN(10)]
 				st := &c9Stats{}
 				var (
 					h    *c9Hist
@@ -722,8 +756,11 @@ func TestC09(t *testing.T) {
 						k, d = "C09/restart-error", err.Error()
 						return
 					}
-					for s := 0; s < steps && d == ""; s++ {
+					for s := 0; s < steps && d == "" && h.inconc == ""; s++ {
 						op := h.genOp(rng, pSync, pRestart, pPrune, maxLag)
+						if op.K == "catchup" && concMode != "" {
+							h.genConc(rng, &op, concMode)
+						}
 						c.Ops = append(c.Ops, op)
 						k, d = h.apply(op)
 					}
@@ -731,8 +768,11 @@ func TestC09(t *testing.T) {
 				if d != "" {
 					r.Violation(k, c, "%s  [window %d ms, %d ops]", d, c.W, len(c.Ops))
 				}
+				if h != nil && h.inconc != "" {
+					r.Inconclusive("%s", h.inconc)
+				}
 				if h != nil {
-					st.indexGets = h.idx.gets
+					st.indexGets = int(h.idx.gets.Load())
 					if h.trueRepeat {
 						r.Distinct(c.W, h.shape.String())
 						if st.ofAccepted+st.ofPopulated+st.ofHistorical+st.ofLagging > 0 {
@@ -779,6 +819,7 @@ func TestC09(t *testing.T) {
 	r.Count("index_prunes", st.prunes)
 	r.Count("index_lookups_by_window", st.indexGets)
 	r.Count("max_window_lag_blocks", st.maxLag)
+	st.conc.report(r)
 	if st.ofProcessing == 0 || st.ofAccepted == 0 || st.ofLagging == 0 || st.ofPopulated == 0 || st.ofHistorical == 0 || st.inBlock == 0 || st.boundary == 0 {
 		r.Inconclusive("a repeat class was never generated: %+v", *st)
 	}
